@@ -794,6 +794,19 @@ def check(case):
                                 case.fail('identical', 'seeds %d and %d (and %d, %d) give identical results' % (
                                     seeds[labs[i]], seeds[labs[j]], sa, sb))
 
+    # ---- neighbouring seeds: the starting points of seed s and of seed s + 1 have no row in common (a stream that is
+    # re-seeded per row with seed + row index shifts the rows of one seed into the next)
+    if ran and entry in ('lp', 'hlp', 'flp'):
+        with case.clause('neighbouring_seeds:' + entry):
+            for s0 in (seeds['A'], seeds['B']):
+                a = np.asarray(call(s0, 4), dtype=float)
+                b = np.asarray(call(s0 + 1, 4), dtype=float)
+                case.equal(a.shape, b.shape, 'shapes of the starting points for seeds %d and %d' % (s0, s0 + 1), kind='shape')
+                shared = [(i, j) for i in range(len(a)) for j in range(len(b)) if np.array_equal(a[i], b[j])]
+                case.true(not shared, 'starting points of seed %d and of seed %d share rows %r (row of the first, row of the '
+                          'second): %r' % (s0, s0 + 1, shared[:3], a[shared[0][0]].tolist()[:4] if shared else None),
+                          kind='identical')
+
     # ---- calls without a seed: successive calls draw on, they do not replay one another; the caller's own draws from
     # the global generator afterwards are not the numbers the call has just used
     if ran and meta['random']:
